@@ -158,6 +158,7 @@ def replay(payload):
         r.do(fix(op))
     coracles.c08(res, r, False)
     coracles.c09(res, r)
+    coracles.c09_silence(res, r)
     r.close()
     for v in res.violations:
         print(v['what'], v['facts'])
